@@ -418,6 +418,34 @@ static int opt_work (
 	EG_RETURN (rval);
 }
 
+/* pivotin works on the current factored basis of the simplex: refuse to run
+ * without one, and refuse indices outside [0, limit) */
+static int check_pivotin_args (
+	EGLPNUM_TYPENAME_QSdata * p,
+	int cnt,
+	int *list,
+	int limit,
+	const char *fname)
+{
+	int i;
+
+	if (p->basis == 0 || p->factorok == 0 || p->lp->vstat == 0 ||
+			p->lp->baz == 0)
+	{
+		QSlog("no factored basis available in %s", fname);
+		return 1;
+	}
+	for (i = 0; i < cnt; i++)
+	{
+		if (list[i] < 0 || list[i] >= limit)
+		{
+			QSlog("index %d out of range in %s", list[i], fname);
+			return 1;
+		}
+	}
+	return 0;
+}
+
 EGLPNUM_TYPENAME_QSLIB_INTERFACE int EGLPNUM_TYPENAME_QSopt_pivotin_row (
 	EGLPNUM_TYPENAME_QSdata * p,
 	int rcnt,
@@ -433,6 +461,9 @@ EGLPNUM_TYPENAME_QSLIB_INTERFACE int EGLPNUM_TYPENAME_QSopt_pivotin_row (
 	{
 		ILL_ERROR (rval, "pricing info not available in EGLPNUM_TYPENAME_QSopt_pivotin_row\n");
 	}
+	rval = check_pivotin_args (p, rcnt, rlist, p->qslp->nrows,
+														 "EGLPNUM_TYPENAME_QSopt_pivotin_row");
+	CHECKRVALG (rval, CLEANUP);
 
 	rval = EGLPNUM_TYPENAME_ILLsimplex_pivotin (p->lp, p->pricing, rcnt, rlist,
 														 SIMPLEX_PIVOTINROW, &basismod);
@@ -453,6 +484,8 @@ EGLPNUM_TYPENAME_QSLIB_INTERFACE int EGLPNUM_TYPENAME_QSopt_pivotin_col (
 {
 	int basismod = 0;
 	int rval = 0;
+	int i;
+	int *ilist = 0;
 
 	rval = check_qsdata_pointer (p);
 	CHECKRVALG (rval, CLEANUP);
@@ -461,8 +494,19 @@ EGLPNUM_TYPENAME_QSLIB_INTERFACE int EGLPNUM_TYPENAME_QSopt_pivotin_col (
 	{
 		ILL_ERROR (rval, "pricing info not available in QSopt_pivotin\n");
 	}
+	rval = check_pivotin_args (p, ccnt, clist, p->qslp->nstruct,
+														 "EGLPNUM_TYPENAME_QSopt_pivotin_col");
+	CHECKRVALG (rval, CLEANUP);
 
-	rval = EGLPNUM_TYPENAME_ILLsimplex_pivotin (p->lp, p->pricing, ccnt, clist,
+	/* clist holds structural column indices; the simplex wants internal ones */
+	if (ccnt > 0)
+	{
+		ILL_SAFE_MALLOC (ilist, ccnt, int);
+		for (i = 0; i < ccnt; i++)
+			ilist[i] = p->qslp->structmap[clist[i]];
+	}
+
+	rval = EGLPNUM_TYPENAME_ILLsimplex_pivotin (p->lp, p->pricing, ccnt, ilist,
 														 SIMPLEX_PIVOTINCOL, &basismod);
 	CHECKRVALG (rval, CLEANUP);
 
@@ -471,6 +515,7 @@ EGLPNUM_TYPENAME_QSLIB_INTERFACE int EGLPNUM_TYPENAME_QSopt_pivotin_col (
 
 CLEANUP:
 
+	ILL_IFFREE(ilist);
 	EG_RETURN (rval);
 }
 
